@@ -360,6 +360,29 @@ pub fn run_case(v: &Sv) -> String {
             }
         }
         f.push(format!("failing={}", if bad.is_empty() { "ok".to_string() } else { format!("BAD:{}", bad.join(";")) }));
+        // the same BufferedWriter used again after a failed write: the second output must be the value's text and nothing else
+        {
+            let shared = std::rc::Rc::new(std::cell::RefCell::new(Vec::<u8>::new()));
+            struct Once(std::rc::Rc<std::cell::RefCell<Vec<u8>>>, bool);
+            impl Write for Once {
+                fn write(&mut self, buf: &[u8]) -> std::io::Result<usize> {
+                    if !self.1 {
+                        self.1 = true;
+                        return Err(std::io::Error::new(std::io::ErrorKind::Other, "not yet"));
+                    }
+                    self.0.borrow_mut().extend_from_slice(buf);
+                    Ok(buf.len())
+                }
+                fn flush(&mut self) -> std::io::Result<()> { Ok(()) }
+            }
+            let mut w = sonic_rs::writer::BufferedWriter::new(Once(shared.clone(), false));
+            let r1 = sonic_rs::to_writer(&mut w, v);
+            let after1 = shared.borrow().clone();
+            let r2 = sonic_rs::to_writer(&mut w, v);
+            let got = shared.borrow().clone();
+            let ok = (full.is_empty() || r1.is_err()) && after1.is_empty() && r2.is_ok() && got == *full;
+            f.push(format!("reuse={}", if ok { "ok".to_string() } else { format!("BAD:{}:{}:{}", if r1.is_err() { "err" } else { "ok" }, if r2.is_err() { "err" } else { "ok" }, hex(&got)) }));
+        }
     }
     f.join(" ")
 }
